@@ -169,10 +169,14 @@ def group3(digs):
 def random_literals(rng, n):
     out = []
     B = 2 ** 96
-    boundary = [B - 2, B - 1, B, B + 1, 10 ** 28, 10 ** 29 - 1, 2 ** 127 - 1, 2 ** 127, 2 ** 127 + 9, 10 ** 38, 10 ** 39, 10 ** 44]
+    # the limits of rust_decimal (2^96, 28 places) and of every machine integer a scanner might accumulate in
+    # (i32, u32, i64, u64, i128), plus the powers of ten next to them
+    boundary = [B - 2, B - 1, B, B + 1, 10 ** 28, 10 ** 29 - 1, 2 ** 127 - 1, 2 ** 127, 2 ** 127 + 9, 10 ** 38, 10 ** 39, 10 ** 44,
+                2 ** 31 - 1, 2 ** 31, 2 ** 32 - 1, 2 ** 32, 2 ** 53, 2 ** 63 - 1, 2 ** 63, 2 ** 63 + 1, 2 ** 64 - 1, 2 ** 64, 2 ** 64 + 1,
+                10 ** 9, 10 ** 10, 10 ** 18, 10 ** 19 - 1, 10 ** 19, 10 ** 20 - 1, 9999999999999999999, 2 ** 128 - 1, 2 ** 128]
     for _ in range(n):
         kind = rng.random()
-        if kind < 0.25:
+        if kind < 0.35:
             m = rng.choice(boundary) + rng.randint(-3, 3)
         else:
             nd = rng.randint(1, 45)
